@@ -2,8 +2,10 @@
 
 use crate::engine::Check;
 
+pub mod c05;
+pub mod c06;
 pub mod c07;
 
 pub fn all() -> Vec<&'static dyn Check> {
-    vec![&c07::C07]
+    vec![&c05::C05, &c06::C06, &c07::C07]
 }
